@@ -4,6 +4,7 @@
 was consumed = a reshuffle happened, and the batch returned).  Points are labelled by distinct
 naturals.  Returns `none` when the trace satisfies the property, `some clause` otherwise.
 -/
+import JinnsModel.Minibatch
 namespace Jinns.Holds
 
 structure Rec09 where
@@ -43,3 +44,14 @@ def holdsC09 (store0 : List Nat) (b : Nat) (tr : List Rec09) : Option String :=
   c09Scan store0 b ([], true) tr
 
 end Jinns.Holds
+
+namespace Jinns.Minibatch
+
+/-- The trace the *model* produces on a history of oracles, in the vocabulary of `Holds.C09`. -/
+def modelTrace (nEff : Nat) : MB Nat → List (List Nat) → List Jinns.Holds.Rec09
+  | _, [] => []
+  | m, o :: os =>
+    let r := next nEff m o
+    { reset := resets nEff m, store := r.1.store, batch := r.2 } :: modelTrace nEff r.1 os
+
+end Jinns.Minibatch
